@@ -7,6 +7,7 @@ import Dashu.Proofs.Float.FBigOps
 import Dashu.Proofs.Conv.Base
 import Dashu.Proofs.Conv.Kind
 import Dashu.Proofs.Conv.ModeFlag
+import Dashu.Proofs.Conv.ToFloat
 /-
   C06 — Conversions are lossless or refused; lossy ones are correctly rounded and say so.
 
@@ -778,5 +779,133 @@ theorem conv_constants_regenerated :
     (-1074 : Int) = Dashu.Gen.Conv.rbig_try_to_f64_lb ∧ (1024 : Int) = Dashu.Gen.Conv.rbig_try_to_f64_ub ∧
     intoSite32 = Dashu.Gen.Conv.into_f32_assert_site ∧ intoSite64 = Dashu.Gen.Conv.into_f64_assert_site := by
   decide
+
+/-! ## Round 5 — `RBig::to_float` / `Relaxed::to_float` and `From<RBig | Relaxed> for FBig` MIRRORED
+    (`Model/Conv/ToFloat.lean`, rational/src/third_party/dashu_float.rs; the driver's `.code` ops run exactly these
+    definitions against the real code).  The exact value is `num / den`; "correctly rounded and says so" is the
+    rounding contract of C03 (`Dashu.Model.Float.Contract`: error below one unit — half a unit for the nearest
+    modes — of the last of `p` digits, side condition of the directed modes, flag `none` iff exact, `AddOne` /
+    `SubOne` only above / below the exact value). -/
+
+/-- Tie A: the no-shift test and the shift amount the mirrored quotient stage CALLS are the text regenerated from
+    the source on every run (`Dashu/Gen/ConvToFloat.lean`): `num_digits >= precision + den_digits`,
+    `(precision + den_digits) - num_digits`; a change of either expression in /repo breaks this theorem and the
+    proof of `rbig_to_float_quotient_stage`. -/
+theorem rbig_to_float_decisions_regenerated (nd dd p : Nat) :
+    Dashu.Gen.ConvToFloat.to_float_no_shift nd dd p = decide (nd ≥ p + dd) ∧
+    Dashu.Gen.ConvToFloat.to_float_shift nd dd p = (p + dd) - nd := ⟨rfl, rfl⟩
+
+/-- `assert!(precision > 0)` -/
+theorem rbig_to_float_precision_zero_panics (B : Nat) (m : Float.Mode) (c : Coarse) (num : Int) (den : Nat) :
+    ratToFloat B m c num den 0 = .error (.undocumented Dashu.Gen.ConvToFloat.to_float_assert_site) := by
+  simp [ratToFloat]
+
+/-- zero converts to `Exact(0)` at every precision `≥ 1` -/
+theorem rbig_to_float_zero (B : Nat) (m : Float.Mode) (c : Coarse) (den p : Nat) (hp : 1 ≤ p) :
+    ratToFloat B m c 0 den p = .ok (⟨0, 0⟩, none) := by
+  have : p ≠ 0 := by omega
+  simp [ratToFloat, this]
+
+/-- the quotient stage: `num·B^shift = q·den + r` with `|r| < den`, and the scaled quotient has at least `p`
+    digits (so its integer rounding is never coarser than the requested precision) -/
+theorem rbig_to_float_quotient_stage (B : Nat) (hB : 2 ≤ B) (num : Int) (den p : Nat) (hn : num ≠ 0) (hd : 0 < den)
+    (hp : 1 ≤ p) :
+    num * ((B ^ (toFloatQuot B num den p).1 : Nat) : Int) =
+        (toFloatQuot B num den p).2.1 * (den : Int) + (toFloatQuot B num den p).2.2 ∧
+      |(toFloatQuot B num den p).2.2| < (den : Int) ∧
+      den * B ^ (p - 1) ≤ num.natAbs * B ^ (toFloatQuot B num den p).1 :=
+  toFloatQuot_spec B hB num den p hn hd hp
+
+/-- **every mode: correct whenever the first-rounded quotient fits the precision** (no second rounding happens) -/
+theorem rbig_to_float_correct_when_fits (B : Nat) (hB : 2 ≤ B) (m : Float.Mode) (c : Coarse) (num : Int) (den p : Nat)
+    (hn : num ≠ 0) (hd : 0 < den) (hp : 1 ≤ p) (hov : p + ilogB B (den : Int) < 2 ^ 64)
+    (hfit : (FRepr.new B (toFloatN1 B m num den p) 0).digits B ≤ p) :
+    ∃ r, ratToFloat B m c num den p = .ok r ∧ Contract B m p ((num : ℚ) / (den : ℚ)) (r.1.toRat B) r.2 :=
+  ratToFloat_contract_of_fits B hB m c num den p hn hd hp hov hfit
+
+-- non-vacuity: 1000/6 at 4 decimal digits (the doc example, quotient 1666 r 4 -> 1667 fits), 22/7 at 5 bits
+example : (FRepr.new 10 (toFloatN1 10 .halfEven 1000 6 4) 0).digits 10 ≤ 4 ∧
+    (FRepr.new 2 (toFloatN1 2 .halfAway (-22) 7 5) 0).digits 2 ≤ 5 ∧
+    ratToFloat 10 .halfEven coarseNone 1000 6 4 = .ok (⟨1667, -1⟩, some .AddOne) := by decide +kernel
+
+/-- **the four directed modes: correctly rounded, truthfully flagged, for ALL inputs** — two roundings in the same
+    directed mode are one (`Zero`, `Away`, `Up`, `Down`; every base, every stored representation, every precision) -/
+theorem rbig_to_float_directed_correct (B : Nat) (hB : 2 ≤ B) (m : Float.Mode) (hm : Directed m) (c : Coarse)
+    (hc : CoarseSound c) (num : Int) (den p : Nat) (hn : num ≠ 0) (hd : 0 < den) (hp : 1 ≤ p)
+    (hov : p + ilogB B (den : Int) < 2 ^ 64) :
+    ∃ r, ratToFloat B m c num den p = .ok r ∧ Contract B m p ((num : ℚ) / (den : ℚ)) (r.1.toRat B) r.2 :=
+  ratToFloat_contract_directed B hB m hm c hc num den p hn hd hp hov
+
+example : Directed .zero ∧ Directed .away ∧ Directed .up ∧ Directed .down := ⟨trivial, trivial, trivial, trivial⟩
+-- a second rounding does happen here (6248/5 = 1249.6 -> 1250 -> 13e2 under Up), and is harmless
+example : ratToFloat 10 .up coarseNone 6248 5 2 = .ok (⟨13, 2⟩, some .AddOne) ∧
+    ¬ ((FRepr.new 10 (toFloatN1 10 .up 6248 5 2) 0).digits 10 ≤ 2) := by decide +kernel
+
+/-- **the two nearest modes are NOT always correctly rounded** (the recorded finding "RBig/Relaxed::to_float: double
+    rounding", kernel-checked on the mirrored code): `6248/5 = 1249.6` at 2 digits under HalfAway gives `13e2`
+    (`1249.6 → 1250 → 13e2`) while the nearest 2-digit value is `12e2`; `149/100` at 1 digit under HalfEven gives `2`
+    (`1.49 → 15e-1 → 2`) while the nearest is `1`. -/
+theorem rbig_to_float_half_modes_counterexample :
+    ratToFloat 10 .halfAway coarseNone 6248 5 2 = .ok (⟨13, 2⟩, some .AddOne) ∧
+    IsNearestAway 6248 (5 * 100) 12 ∧ ¬ IsNearestAway 6248 (5 * 100) 13 ∧
+    ratToFloat 10 .halfEven coarseNone 149 100 1 = .ok (⟨2, 0⟩, some .AddOne) ∧
+    IsNearestEven 149 100 1 ∧ ¬ IsNearestEven 149 100 2 := by
+  unfold IsNearestAway IsNearestEven
+  decide +kernel
+
+/-- **`From<RBig | Relaxed> for FBig<R, B>` is ONE rounding of the exact quotient** at precision
+    `max(digits num, digits den, 1)` under `R` (never a panic; by C03's `repr_div` contract), and it is lossless
+    exactly when the flag the code drops is `none` -/
+theorem fbig_from_rbig_is_one_rounding (B : Nat) (hB : 2 ≤ B) (m : Float.Mode) (num : Int) (den : Nat) (hd : 0 < den) :
+    ∃ v f, fbigFromRat B m num den =
+        .ok (v, (if max (digitsI B num) 1 > max (digitsI B (den : Int)) 1 then max (digitsI B num) 1
+                 else max (digitsI B (den : Int)) 1), f) ∧
+      Contract B m (if max (digitsI B num) 1 > max (digitsI B (den : Int)) 1 then max (digitsI B num) 1
+                 else max (digitsI B (den : Int)) 1) ((num : ℚ) / (den : ℚ)) (v.toRat B) f ∧
+      (f = none ↔ v.toRat B = (num : ℚ) / (den : ℚ)) :=
+  fbigFromRat_contract B hB m num den hd
+
+/-- … and it IS lossy although its type promises a lossless `From` (the recorded finding "From<RBig> for FBig"):
+    `1/4` becomes `0.2` in base 10 (representable: `0.25`), `1/3` is silently rounded in base 2 -/
+theorem fbig_from_rbig_lossy_counterexample :
+    fbigFromRat 10 .zero 1 4 = .ok (⟨2, -1⟩, 1, some .NoOp) ∧
+    fbigFromRat 2 .zero 1 3 = .ok (⟨1, -2⟩, 2, some .NoOp) := by decide +kernel
+
+/-- `From<UBig | IBig> for FBig<R, B>` (= `from_parts(n, 0)` = `Repr::new(n, 0)`, float/src/convert.rs) is lossless in
+    every base: the float denotes exactly the integer (trailing zero digits only move into the exponent) -/
+theorem fbig_from_ibig_exact (B : Nat) (hB : 0 < B) (n : Int) : (FRepr.new B n 0).toRat B = (n : ℚ) :=
+  new_int_value B hB n
+
+/-- Tie A: the body of `impl From<Repr> for FBig` that `fbigFromRat` mirrors is the body in the source on this run
+    (regenerated whitespace-normalised text; `From<RBig>` / `From<Relaxed>` forward to it — checked by the extractor) -/
+theorem fbig_from_rbig_source_shape : fromReprSource = Dashu.Gen.ConvToFloat.from_repr_body := by decide
+
+/-- **every mode, hypothesis on the INPUT only**: when the scaled quotient `|num|·B^shift / den` is below `B^p` (it has
+    exactly `p` digits — one of the two lengths the quotient stage can deliver; `shift` is the regenerated shift amount)
+    the conversion is ONE correct rounding: the rounding contract of C03 holds for the exact `num / den` -/
+theorem rbig_to_float_correct_when_quotient_short (B : Nat) (hB : 2 ≤ B) (m : Float.Mode) (c : Coarse) (num : Int)
+    (den p : Nat) (hn : num ≠ 0) (hd : 0 < den) (hp : 1 ≤ p) (hov : p + ilogB B (den : Int) < 2 ^ 64)
+    (hshort : num.natAbs * B ^ (toFloatQuot B num den p).1 < den * B ^ p) :
+    ∃ r, ratToFloat B m c num den p = .ok r ∧ Contract B m p ((num : ℚ) / (den : ℚ)) (r.1.toRat B) r.2 :=
+  ratToFloat_contract_of_fits B hB m c num den p hn hd hp hov (fits_of_short B hB m num den p hd hp hshort)
+
+-- non-vacuity: 1000/6 at 4 digits (10000 < 6·10^4), -22/7 at 5 bits, 149/200 at 3 digits
+example : (1000 : Int).natAbs * 10 ^ (toFloatQuot 10 1000 6 4).1 < 6 * 10 ^ 4 ∧
+    (-22 : Int).natAbs * 2 ^ (toFloatQuot 2 (-22) 7 5).1 < 7 * 2 ^ 5 ∧
+    (149 : Int).natAbs * 10 ^ (toFloatQuot 10 149 200 3).1 < 200 * 10 ^ 3 := by decide +kernel
+
+/-- **every mode, hypothesis on the INPUT only**: when `den` divides the scaled numerator `num·B^shift` (the quotient
+    stage leaves remainder 0 — every integer, every `num / B^k`, in base 2 every dyadic rational) the first rounding is
+    exact and the conversion is ONE correct rounding, whatever the length of the quotient -/
+theorem rbig_to_float_correct_when_quotient_exact (B : Nat) (hB : 2 ≤ B) (m : Float.Mode) (c : Coarse)
+    (hc : CoarseSound c) (num : Int) (den p : Nat) (hn : num ≠ 0) (hd : 0 < den) (hp : 1 ≤ p)
+    (hov : p + ilogB B (den : Int) < 2 ^ 64) (hex : (toFloatQuot B num den p).2.2 = 0) :
+    ∃ r, ratToFloat B m c num den p = .ok r ∧ Contract B m p ((num : ℚ) / (den : ℚ)) (r.1.toRat B) r.2 :=
+  ratToFloat_contract_of_exact B hB m c hc num den p hn hd hp hov hex
+
+-- non-vacuity: 1000/8 = 125 at 2 digits (remainder 0, the 3-digit quotient IS rounded: tie to even 12e1)
+example : (toFloatQuot 10 1000 8 2).2.2 = 0 ∧
+    ratToFloat 10 .halfEven coarseNone 1000 8 2 = .ok (⟨12, 1⟩, some .NoOp) ∧
+    (toFloatQuot 2 (-40) 8 3).2.2 = 0 := by decide +kernel
 
 end Dashu.Props.C06
